@@ -88,21 +88,38 @@ static void finish_square_case(Case &c, const M &A, int n) {
 }
 
 // ------------------------------------------------------------------------------------------------
+// State of the result container handed to a routine: 0 = fresh (init...), 1 = already of the result's shape and full of stale
+// values (an output re-used by the caller), 2 = another shape, stale.  Every routine here sizes its own output, so all three are
+// valid calls and must give the same result.
+static int draw_ostate(Draw &d, Case &c) { int r = (int)d.i(0, 9); int st = r < 5 ? 0 : r < 8 ? 1 : 2; c.tags.push_back(st == 0 ? "output=fresh" : st == 1 ? "output=reused-same-shape" : "output=reused-other-shape"); return st; }
+static matrix *out_matrix(int state, int r, int cc) {
+  matrix *m; if (state == 0) { initMatrix(&m); return m; }
+  if (state == 2) { r += 1; cc = cc > 1 ? cc - 1 : cc + 2; }
+  NewMatrix(&m, (size_t)r, (size_t)cc); for (int i = 0; i < r; i++) for (int j = 0; j < cc; j++) m->data[i][j] = 7.25 + i - 0.5 * j;
+  return m;
+}
+static dvector *out_vector(int state, int n) {
+  dvector *v; if (state == 0) { initDVector(&v); return v; }
+  if (state == 2) n += 2;
+  NewDVector(&v, (size_t)n); for (int i = 0; i < n; i++) v->data[i] = -3.5 + i;
+  return v;
+}
+
 static void gen_inverse(Draw &d, Case &c) {
   int n = (int)d.sz(1, 12), fam = (int)d.i(0, NFAM - 1);
   M A = gen_square(d, n, fam, c.tags);
-  c.p = {n, fam}; put(c, A);
+  c.p = {n, fam, draw_ostate(d, c)}; put(c, A);
   finish_square_case(c, A, n);
 }
 static void pred_inverse(const Case &c) {
-  Reader rd(c); int n = (int)rd.i(); rd.i();
+  Reader rd(c); int n = (int)rd.i(); rd.i(); int ost = c.p.size() > 2 ? (int)rd.i() : 0;
   M A = rd.mat(n, n);
   ld smax, smin; cond_of(A, smax, smin);
   VF_CHECK(smin > 0, "generator produced a singular matrix");
   ld kappa = smax / smin, tol = CT2 * n * EPS * kappa;
   matrix *a = to_lib(A);
   for (int which = 0; which < 2; which++) {
-    matrix *inv; initMatrix(&inv);
+    matrix *inv = out_matrix(ost, n, n);
     if (which == 0) MatrixInversion(a, inv); else MatrixLUInversion(a, inv);
     const char *nm = which == 0 ? "MatrixInversion" : "MatrixLUInversion";
     VF_CHECK((int)inv->row == n && (int)inv->col == n, "%s: result shape %s", nm, dims(inv).c_str());
@@ -153,15 +170,15 @@ static void gen_solve(Draw &d, Case &c) {
   M A = gen_square(d, n, fam, c.tags);
   V x = V(n); auto xi = d.ivec(n, -1000, 1000); for (int i = 0; i < n; i++) x[i] = (ld)xi[i] / 100;
   V b = matvec(A, x); for (auto &t : b) t = (double)t;
-  c.p = {n}; put(c, A); put(c, b);
+  c.p = {n, draw_ostate(d, c)}; put(c, A); put(c, b);
   finish_square_case(c, A, n);
 }
 static void pred_solve(const Case &c) {
-  Reader rd(c); int n = (int)rd.i();
+  Reader rd(c); int n = (int)rd.i(); int ost = c.p.size() > 1 ? (int)rd.i() : 0;
   M A = rd.mat(n, n); V b = rd.vec(n);
   ld smax, smin; cond_of(A, smax, smin); ld kappa = smax / smin;
   M Ab(n, n + 1); for (int i = 0; i < n; i++) { for (int j = 0; j < n; j++) Ab(i, j) = A(i, j); Ab(i, n) = b[i]; }
-  matrix *m = to_lib(Ab); dvector *sol; initDVector(&sol);
+  matrix *m = to_lib(Ab); dvector *sol = out_vector(ost, n);
   SolveLSE(m, sol);
   VF_CHECK((int)sol->size == n, "SolveLSE: solution size %zu != %d", sol->size, n);
   M B(n, 1); for (int i = 0; i < n; i++) B(i, 0) = b[i];
@@ -193,14 +210,14 @@ static void gen_ols(Draw &d, Case &c) {
   M A = gen_rect(d, m, n, 3, c.tags);
   auto yi = d.ivec(m, -1000, 1000); V y(m); for (int i = 0; i < m; i++) y[i] = (double)yi[i] / 10;
   if (d.coin(30)) { V x(n); auto xi = d.ivec(n, -100, 100); for (int i = 0; i < n; i++) x[i] = xi[i]; y = matvec(A, x); for (auto &t : y) t = (double)t; c.tags.push_back("consistent-system"); }
-  c.p = {m, n}; put(c, A); put(c, y);
+  c.p = {m, n, draw_ostate(d, c)}; put(c, A); put(c, y);
   c.nontrivial = m > n && n >= 2;
 }
 static void pred_ols(const Case &c) {
-  Reader rd(c); int m = (int)rd.i(), n = (int)rd.i();
+  Reader rd(c); int m = (int)rd.i(), n = (int)rd.i(); int ost = c.p.size() > 2 ? (int)rd.i() : 0;
   M A = rd.mat(m, n); V y = rd.vec(m);
   ld smax, smin; cond_of(A, smax, smin); ld kappa = smax / smin;
-  matrix *a = to_lib(A); dvector *dy = to_lib(y), *coef; initDVector(&coef);
+  matrix *a = to_lib(A); dvector *dy = to_lib(y), *coef = out_vector(ost, n);
   OrdinaryLeastSquares(a, dy, coef);
   VF_CHECK((int)coef->size == n, "OrdinaryLeastSquares: %zu coefficients for %d columns", coef->size, n);
   M Y(m, 1); for (int i = 0; i < m; i++) Y(i, 0) = y[i];
@@ -217,16 +234,17 @@ static void gen_pinv(Draw &d, Case &c) {
   int n = (int)d.sz(1, 8), m = n + (int)d.sz(0, 8);
   M A = gen_rect(d, m, n, 2, c.tags);
   int which = d.coin(35) ? 1 : 0;            // 0 MatrixMoorePenrosePseudoinverse, 1 MatrixPseudoinversion (SVD based)
-  c.p = {m, n, which}; put(c, A);
+  c.p = {m, n, which, draw_ostate(d, c)}; put(c, A);
   c.tags.push_back(which ? "routine=MatrixPseudoinversion" : "routine=MatrixMoorePenrosePseudoinverse");
   c.tags.push_back(m > n ? "tall" : "square");
   c.nontrivial = m > n && n >= 2;
 }
 static void pred_pinv(const Case &c) {
   Reader rd(c); int m = (int)rd.i(), n = (int)rd.i(); int which = c.p.size() > 2 ? (int)rd.i() : 0;
+  int ost = c.p.size() > 3 ? (int)rd.i() : 0;
   M A = rd.mat(m, n);
   ld smax, smin; cond_of(A, smax, smin); ld kappa = smax / smin;
-  matrix *a = to_lib(A), *inv; initMatrix(&inv);
+  matrix *a = to_lib(A), *inv = out_matrix(ost, n, m);
   const char *RN = which ? "MatrixPseudoinversion" : "MatrixMoorePenrosePseudoinverse";
   if (which) MatrixPseudoinversion(a, inv); else MatrixMoorePenrosePseudoinverse(a, inv);
   VF_CHECK((int)inv->row == n && (int)inv->col == m, "%s: shape %s for a %dx%d input", RN, dims(inv).c_str(), m, n);
@@ -246,13 +264,13 @@ static void gen_eig(Draw &d, Case &c) {
   int n = (int)d.sz(1, 12), fam = d.coin(50) ? SPD : SYM_INDEF;
   if (d.coin(10)) fam = DIAGONAL;
   M A = gen_square(d, n, fam, c.tags);
-  c.p = {n}; put(c, A);
+  c.p = {n, draw_ostate(d, c)}; put(c, A);
   c.nontrivial = n >= 3;
 }
 static void pred_eig(const Case &c) {
-  Reader rd(c); int n = (int)rd.i();
+  Reader rd(c); int n = (int)rd.i(); int ost = c.p.size() > 1 ? (int)rd.i() : 0;
   M A = rd.mat(n, n);
-  matrix *a = to_lib(A), *evec; dvector *eval; initMatrix(&evec); initDVector(&eval);
+  matrix *a = to_lib(A), *evec = out_matrix(ost, n, n); dvector *eval = out_vector(ost, n);
   EVectEval(a, eval, evec);
   VF_CHECK((int)eval->size == n && (int)evec->row == n && (int)evec->col == n, "EVectEval: output sizes");
   ld nA = fro(A), tol = CT2 * n * EPS * nA + 1e-300L;
@@ -276,15 +294,16 @@ static void gen_svd(Draw &d, Case &c) {
   M A = gen_rect(d, m, n, 6, c.tags);
   if (d.coin(15) && std::min(m, n) >= 2) { for (int i = 0; i < m; i++) A(i, n - 1) = A(i, 0); c.tags.push_back("rank-deficient"); }
   int which = d.coin(35) ? 1 : 0;            // 0 SVDlapack, 1 SVD ("local implementation")
-  c.p = {m, n, which}; put(c, A);
+  c.p = {m, n, which, draw_ostate(d, c)}; put(c, A);
   c.tags.push_back(m > n ? "tall" : m < n ? "wide" : "square");
   c.tags.push_back(which ? "routine=SVD" : "routine=SVDlapack");
   c.nontrivial = m != n;
 }
 static void pred_svd(const Case &c) {
   Reader rd(c); int m = (int)rd.i(), n = (int)rd.i(); int which = c.p.size() > 2 ? (int)rd.i() : 0;
+  int ost = c.p.size() > 3 ? (int)rd.i() : 0; int kk = std::min(m, n);
   M A = rd.mat(m, n);
-  matrix *a = to_lib(A), *u, *s, *vt; initMatrix(&u); initMatrix(&s); initMatrix(&vt);
+  matrix *a = to_lib(A), *u = out_matrix(ost, m, kk), *s = out_matrix(ost, kk, kk), *vt = out_matrix(ost, kk, n);
   const char *RN = which ? "SVD" : "SVDlapack";
   if (which) SVD(a, u, s, vt); else SVDlapack(a, u, s, vt);
   VF_CHECK((int)u->row == m && (int)vt->col == n && u->col == s->row && s->col == vt->row,
